@@ -485,12 +485,64 @@ class Gen:
 
     def ev_garbage(self):
         r = self.rng
+        if r.random() < 0.7:
+            return self.mutated_message()
         m = r.choice([
             {"liquid_stake": {"mint_to": 5}}, {"withdraw": {"batch_id": "1"}}, {"no_such": {}},
             {"fee_withdraw": {"amount": 5}}, {"withdraw": {}}, {"liquid_unstake": {"x": 1}},
             {"resume_contract": {"total_native_token": "-1", "total_liquid_stake_token": "1", "total_reward_amount": "0"}},
         ])
         return [exec_ev(self.some_user(), m)]
+
+    def mutated_message(self):
+        """the malformed stream: a message some builder just produced, with one structural mutation of its
+        JSON (missing / extra / null / wrongly-typed field, renamed or doubled variant, wrong nesting) --
+        the contract's deserializer and the model's parser must agree on whether it is a message at all"""
+        r = self.rng
+        import copy
+        builder = r.choice(["stake", "unstake", "withdraw", "recover", "update_config", "validators", "ownership",
+                            "fee_withdraw", "resume", "submit", "breaker"])
+        base = None
+        for ev in getattr(self, "ev_" + builder)():
+            if ev.get("ev") == "exec":
+                base = ev
+        if base is None:
+            return [exec_ev(self.some_user(), {"no_such": {}})]
+        ev = copy.deepcopy(base)
+        msg = ev["msg"]
+        var = next(iter(msg))
+        body = msg[var]
+        kind = r.choice(["drop", "extra", "null", "retype", "variant", "double", "nest", "scalar"])
+        if kind == "drop" and isinstance(body, dict) and body:
+            del body[r.choice(sorted(body))]
+        elif kind == "extra" and isinstance(body, dict):
+            body[r.choice(["x", "amount", "id", "limit"])] = r.choice([1, "1", None])
+        elif kind == "null" and isinstance(body, dict) and body:
+            body[r.choice(sorted(body))] = None
+        elif kind == "retype" and isinstance(body, dict) and body:
+            k = r.choice(sorted(body))
+            v = body[k]
+            if isinstance(v, bool):
+                body[k] = r.choice(["true", 1])
+            elif isinstance(v, int):
+                body[k] = r.choice([str(v), -v - 1, v + 0.5, [v]])
+            elif isinstance(v, str):
+                body[k] = r.choice([int(v) if v.isdigit() and len(v) < 15 else 7, [v], {"a": v}, "-" + v, " " + v, v + " "])
+            elif isinstance(v, list):
+                body[k] = r.choice([{"0": 1}, "x", (v + [None])])
+            elif isinstance(v, dict):
+                body[k] = r.choice([[], "x", {kk: vv for kk, vv in list(v.items())[1:]}])
+            else:
+                body[k] = r.choice([0, "", [], {}])
+        elif kind == "variant":
+            ev["msg"] = {r.choice([var.upper(), var + "s", var.replace("_", ""), "LiquidStake", ""]): body}
+        elif kind == "double":
+            ev["msg"] = {var: body, "circuit_breaker": {}}
+        elif kind == "nest":
+            ev["msg"] = r.choice([[msg], {"msg": msg}, {var: [body]}, {var: {var: body}}])
+        else:
+            ev["msg"] = r.choice([var, 5, None, [], {var: None}, {var: 1}, {var: []}])
+        return [ev]
 
     def next_events(self):
         k = pick_weighted(self.rng, self.w)
